@@ -302,4 +302,35 @@ theorem below_zero (fuel : Nat) (t : Tree) (h : Inv t) (g q : Nat) (hb : below f
         · exact child_zero t h q p n hq hp (ih p hb)
 
 
+
+/-! ## subscriber streams -/
+
+theorem streamOk_snoc (a v n : Nat) (st : List (Nat × Nat)) (h : streamOk a v st = true) (hne : v ≠ n) :
+    streamOk a n (st ++ [(v, n)]) = true := by
+  induction st generalizing a with
+  | nil =>
+    simp only [streamOk, beq_iff_eq] at h
+    subst h
+    simp [streamOk, hne]
+  | cons x xs ih =>
+    obtain ⟨o, m⟩ := x
+    simp only [streamOk, List.cons_append, Bool.and_eq_true] at h ⊢
+    exact ⟨h.1, ih m h.2⟩
+
+theorem streamOk_recStep (a v n : Nat) (st : List (Nat × Nat)) (h : streamOk a v st = true) :
+    streamOk a n (recStep st v n) = true := by
+  unfold recStep
+  by_cases e : v = n
+  · subst e; simpa using h
+  · simp only [e, if_false]; exact streamOk_snoc a v n st h e
+
+theorem streamOk_recRun (a v : Nat) (vs : List Nat) (st : List (Nat × Nat)) (h : streamOk a v st = true) :
+    streamOk a ((v :: vs).getLast (by simp)) (recRun v vs st) = true := by
+  induction vs generalizing v st with
+  | nil => simpa [recRun] using h
+  | cons w ws ih =>
+    simp only [recRun]
+    have := ih w (recStep st v w) (streamOk_recStep a v w st h)
+    simpa using this
+
 end Hive.WPG
